@@ -25,7 +25,7 @@ CH_B = 64       # chunks of the 4-vertex canonical block
 
 def plan(tier, seed):
     if tier == 'quick':
-        return dict(n=CH_A + CH_B + 40 + 60, budget_s=60, case_timeout=120)
+        return dict(n=CH_A + CH_B + 120 + 150, budget_s=60, case_timeout=120)
     return dict(n=CH_A + CH_B + 24 * 16 + 8000 + 15000, budget_s=840, case_timeout=300)
 
 
@@ -69,7 +69,7 @@ def run_case(tier, seed, index, spec=None):
     viols, keys = [], []
     evals = 0
     nb = CH_A + CH_B
-    quick_rand = 40 if tier == 'quick' else 8000
+    quick_rand = 120 if tier == 'quick' else 8000
     perm4 = 0 if tier == 'quick' else 24 * 16
     if index < CH_A:
         cls = 'exhaustive<=3-all-orders'
